@@ -293,8 +293,10 @@ pub fn stale_content() -> Vec<u8> {
 
 /// Ways a tool with an optional INPUT file argument can be given its input:
 /// 0 regular file; 1 stdin at once; 2 regular file (callers use it for "file in, file out");
-/// 3 a named pipe as INPUT; 4 `/dev/stdin` as INPUT with a pipe on stdin; 5 stdin in small pieces.
-pub const INPUT_MODES: u64 = 6;
+/// 3 a named pipe as INPUT; 4 `/dev/stdin` as INPUT with a pipe on stdin; 5 stdin in small pieces;
+/// 6 a regular file whose name is `-` in the working directory (INPUT is a file name — the tools
+/// document no other reading of it), with an EMPTY pipe on stdin.
+pub const INPUT_MODES: u64 = 7;
 
 pub struct InputPlan {
     /// the INPUT argument, if the mode uses one
@@ -311,6 +313,10 @@ pub fn plan_input(mode: u8, dir: &std::path::Path, file_name: &str, content: &[u
         3 => InputPlan { path_arg: Some(path.display().to_string()), stdin: None, feed: crate::cli::Feed { stdin_chunk: 0, fifos: vec![(path, content.to_vec(), chunk)] } },
         4 => InputPlan { path_arg: Some("/dev/stdin".into()), stdin: Some(content.to_vec()), feed: crate::cli::Feed { stdin_chunk: if content.len() % 2 == 0 { 0 } else { chunk }, fifos: vec![] } },
         5 => InputPlan { path_arg: None, stdin: Some(content.to_vec()), feed: crate::cli::Feed { stdin_chunk: chunk, fifos: vec![] } },
+        6 => {
+            let _ = std::fs::write(dir.join("-"), content);
+            InputPlan { path_arg: Some("-".into()), stdin: Some(Vec::new()), feed: Default::default() }
+        }
         _ => {
             let _ = std::fs::write(&path, content);
             InputPlan { path_arg: Some(path.display().to_string()), stdin: None, feed: Default::default() }
